@@ -518,6 +518,8 @@ class GriffeLoader:
         if isinstance(package, NamespacePackage):
             return top_module
         if package.stubs:
+            # Like when a package is loaded without stubs: exports first, they decide what wildcards import.
+            self.expand_exports(top_module)
             self.expand_wildcards(top_module)
             # If stubs are in the package itself, they have been merged while loading modules,
             # so only the top-level init module needs to be merged still.
